@@ -230,6 +230,15 @@ func c10SerCase(rt *rapid.T, rec *vt.Rec) {
 	used := map[int]bool{}
 	if walletOp.Kind != "" {
 		ops = append(ops, walletOp)
+		// the same wallet may also send a second request at the same time (two sessions of one owner);
+		// nonces are drawn in this order, so "second before first" legitimately refuses the first
+		// (only withdraw+withdraw: a signed request's nonce check and its execution are separate steps, so two
+		// DIFFERENT requests of one identity in flight together - link racing withdraw - can both be accepted in an
+		// order no serial execution produces; one identity is sequential by construction, as every real agent is.
+		// Racing withdrawals are the exception C07 names explicitly.)
+		if walletOp.Kind == "withdraw" && rapid.IntRange(0, 1).Draw(rt, "secondWithdraw") == 0 {
+			ops = append(ops, serOp{"withdraw", 0, "withdraw#2(w0)"})
+		}
 	}
 	for len(ops) < k {
 		o := rapid.SampledFrom(pool_).Draw(rt, "op")
